@@ -165,7 +165,24 @@ theorem Opts.Sound.aligned {o : Opts} (hs : o.Sound) {d : AOff} {x : Nat} (hx : 
     (ho : o.orc d = true) : x % 8 = 0 :=
   AOff.aligned_of_adm (hs d ho) hx
 
-theorem exactOrc_sound (little : Bool) (fill : Nat) : Opts.Sound { little := little, orc := exactOrc, fill := fill } :=
+theorem exactOrc_sound (little : Bool) (fill : Nat) (asserts : Bool) :
+    Opts.Sound { little := little, orc := exactOrc, fill := fill, asserts := asserts } :=
   fun _ h => h
+
+/-! ### assertions that hold do nothing -/
+
+theorem assertC_ok {α : Type} (o : Opts) {c : Prop} [Decidable c] (h : c) (k : Except Err α) :
+    assertC o c k = k := by
+  unfold assertC
+  rw [if_neg]
+  intro h2
+  exact h2.2 h
+
+/-- the assertions at the head of `_serialize_any` / `_deserialize_any` hold at every site the code reaches -/
+theorem anyGuard_ok {α : Type} (o : Opts) (hs : o.Sound) (t : Ty) (room : Option Nat) (d : AOff) (off : Nat)
+    (k : Except Err α) (hal : off % align t = 0) (hd : AOff.Adm d off)
+    (hroom : optLe (off + maxBits t) room = true) : anyGuard o t room d off k = k := by
+  unfold anyGuard
+  rw [assertC_ok o (fun _ => hal), assertC_ok o (fun ho => hs.aligned hd ho), assertC_ok o hroom]
 
 end NunavutVerif.GenC
